@@ -3,7 +3,7 @@ from __future__ import annotations
 
 import ast
 
-from ..astq import Inliner, U, kwarg, statements, store_targets
+from ..astq import Inliner, U, canon_src, kwarg, nested_def, statements, store_targets
 from ..cfg import CFG, header_walk
 from ..index import AnalysisError, walk_no_nested
 from ..selftest import V
@@ -36,7 +36,7 @@ def r1_weighted_tensor(ctx):
     cw = Canon(ws.node)
     rets = cw.returns()
     rtxt = rets[0] if rets else ""
-    ctx.form("C06.R1", ws, ws.node, rtxt, {"((weight * $0.filled(0)).sum(**$kwargs).masked_fill(weight.sum(**$kwargs) == 0, $k0), weight.sum(**$kwargs))"},
+    ctx.form("C06.R1", ws, ws.node, rtxt, {"((%0 * $0.filled(0)).sum(**$kwargs).masked_fill(%0.sum(**$kwargs) == 0, $k0), %0.sum(**$kwargs))"},
              ["$0.filled(0)", "masked_fill(", ".sum(**$kwargs) == 0"], "weights multiply self.filled(0); empty aggregates filled; value-sum and weight-sum over the same axes",
              "wsum multiplies the weights with unfilled values (a NaN / inf at a masked position gives NaN in the sum) or no longer fills empty aggregates", construct="weighted sum")
     dflt = [st for st in statements(ws.node) if isinstance(st, ast.Assign) and isinstance(st.value, ast.Call) and U(st.value.func) == "torch.ones_like" and U(st.value.args[0]) == "self.value"]
@@ -107,8 +107,9 @@ def r1_weighted_tensor(ctx):
               "operations between tensors with different masks are no longer refused", construct="different masks refused")
     # (d) unary factory
     fa = ix.func("leaspy.utils.weighted_tensor._factory", "factory_weighted_tensor_unary_operator", "C06.R1")
-    src = U(fa.node)
-    ok = "f(x.filled(fill_value), *args, **kws)" in src and "conv = x.valued" in src
+    inner = nested_def(fa.node)
+    src = canon_src(inner) if inner is not None else ""
+    ok = "return $0.valued(f($0.filled(fill_value), *$args, **$kwargs))" in src
     ctx.check(ok, "C06.R1", fa, fa.node, "unary operators act on filled values and keep the weights", "the unary-operator factory no longer applies f to filled values and re-attaches the weights")
     gf = ix.func(WT, "WeightedTensor.get_filled_value_and_weight", "C06.R1")
     ok = "(t.filled(fill_value), t.weight)" in U(gf.node) or "t.filled(fill_value), t.weight" in U(gf.node)
